@@ -63,8 +63,8 @@ CHECKS = {
             "DESIGN.md 5/C11"),
     "C15": ("fault_enumeration",
             "exhaustive fault enumeration: every response position x 11 fault kinds injected by the reference solver; killable child processes",
-            "For fixed safe/unsafe systems and each engine (bmc, pdr with/without cores, a bare SolverContext session) a clean run determines the response-bearing points; every position up to the bound x every fault kind is injected; the run must return an error or Unknown within 25 s (killed otherwise), never a verdict or panic, and error messages must arrive verbatim. Exhaustive within the stated bounds.",
-            "A faulted run exceeding 25 s (clean < 1 s) counts as blocking forever.",
+            "For fixed safe/unsafe systems and each engine (bmc, pdr with/without cores, a bare SolverContext session) a clean run determines the response-bearing points; every position up to the bound x every fault kind is injected; the run must return an error or Unknown within 90 s (killed otherwise; system/engine pairs with a clean run above 6 s are excluded and counted), never a verdict or panic, and error messages must arrive verbatim. Exhaustive within the stated bounds.",
+            "A faulted run exceeding 90 s (clean runs of the enumerated pairs < 6 s, typically < 1 s) counts as blocking forever.",
             "DESIGN.md 5/C15"),
     "C16": ("exploration",
             "proptest round-trip printer->reader over generated witnesses and witness streams",
@@ -145,7 +145,7 @@ def main():
         ],
         "checks": checks,
         "not_applicable": na,
-        "notes": "All checks: ./check <id> <tier>; exit 0 held / 1 VIOLATION / 2 harness trouble. VERIF_SEED selects the PRNG streams. known_findings.jsonl lists open and fixed findings.",
+        "notes": "All checks: ./check <id> <tier>; exit 0 held / 1 VIOLATION / 2 harness trouble. VERIF_SEED selects the PRNG streams. known_findings.jsonl lists open and fixed findings. The thorough tier of the in-process properties adds a coverage-guided libFuzzer stage (cargo-fuzz targets tape / c18_bytes / c14_bytes, PV_FUZZ_SECS seconds) whose crashing inputs are re-judged by the same oracle.",
     }
     with open(os.path.join(ROOT, "MANIFEST.json"), "w") as f:
         json.dump(m, f, indent=1)
